@@ -75,6 +75,27 @@ macro_rules! contains {
 }
 
 harnesses! {
+    fn c12_p_and_noread [6] {
+        let w = any_words::<2>();
+        let s = arr::<Iupac, 32, 2>(w);
+        let r: Seq<Iupac> = &s[0..1] & &s[4..5];
+        assert!(r.len() == 1, "p");
+        core::mem::forget(r);
+    }
+    fn c12_p_toowned_read [6] {
+        let w = any_words::<2>();
+        let s = arr::<Iupac, 32, 2>(w);
+        let r: Seq<Iupac> = s[0..1].to_owned();
+        assert!(r.nth(0).to_bits() == sym(&w, 0, 4, 0), "p");
+        core::mem::forget(r);
+    }
+    fn c12_p_and_raw [6] {
+        let w = any_words::<2>();
+        let s = arr::<Iupac, 32, 2>(w);
+        let r: Seq<Iupac> = &s[0..1] & &s[4..5];
+        assert!(r.into_raw()[0] & 15 == (w[0] & (w[0] >> 16)) & 15, "p");
+        core::mem::forget(r);
+    }
     fn c12_q_symbol_union_intersection [2] {
         // all 256 symbol pairs: the decoded symbol of a|b / a&b is the IUPAC letter of the union / intersection
         let (a, b) = (any_u8(), any_u8());
@@ -92,13 +113,17 @@ harnesses! {
         assert!(u.to_comp().to_bits() == oracle::iupac_comp(a) | oracle::iupac_comp(b), "C12.symbol.complement_distributes_over_union");
         reach!(a & b == 0 && a != 0 && b != 0, "disjoint");
     }
-    fn c12_q_or_0_4_n2 [10] { bitop!(0, 4, 2, true) }
-    fn c12_q_and_15_1_n2 [10] { bitop!(15, 1, 2, false) }
-    fn c12_q_or_15_7_n3 [10] { bitop!(15, 7, 3, true) }
+    fn c12_q_or_15_7_n1 [6] { bitop!(15, 7, 1, true) }
+    fn c12_q_and_0_4_n1 [6] { bitop!(0, 4, 1, false) }
+    fn c12_q_contains_15_1_1_1 [6] { contains!(15, 1, 1, 1, 0) }
+    fn c12_q_contains_owned_1_1_9_1 [6] { contains!(1, 1, 9, 1, 1) }
+    fn c12_t_or_0_4_n2 [10] { bitop!(0, 4, 2, true) }
+    fn c12_t_and_15_1_n2 [10] { bitop!(15, 1, 2, false) }
+    fn c12_t_or_15_7_n3 [10] { bitop!(15, 7, 3, true) }
     fn c12_t_and_0_15_n3 [10] { bitop!(0, 15, 3, false) }
     fn c12_t_or_1_1_n3 [10] { bitop!(1, 1, 3, true) }
     fn c12_t_and_14_3_n4 [10] { bitop!(14, 3, 4, false) }
-    fn c12_q_empty_ops [3] {
+    fn c12_t_empty_ops [3] {
         let w = any_words::<2>();
         let s = arr::<Iupac, 32, 2>(w);
         let r = &s[3..3] | &s[9..9];
@@ -109,10 +134,10 @@ harnesses! {
     fn c12_q_owned_or_1_9_n2 [10] { owned_bitop!(1, 9, 2, true) }
     fn c12_t_owned_and_15_0_n2 [10] { owned_bitop!(15, 0, 2, false) }
 
-    fn c12_q_contains_0_2_5_2 [10] { contains!(0, 2, 5, 2, 0) }
-    fn c12_q_contains_15_2_1_2 [10] { contains!(15, 2, 1, 2, 0) }
+    fn c12_t_contains_0_2_5_2 [10] { contains!(0, 2, 5, 2, 0) }
+    fn c12_t_contains_15_2_1_2 [10] { contains!(15, 2, 1, 2, 0) }
     fn c12_q_contains_len_mismatch [10] { contains!(0, 2, 5, 3, 0) }
-    fn c12_q_contains_owned_1_2_9_2 [10] { contains!(1, 2, 9, 2, 1) }
+    fn c12_t_contains_owned_1_2_9_2 [10] { contains!(1, 2, 9, 2, 1) }
     fn c12_t_contains_3_3_14_3 [10] { contains!(3, 3, 14, 3, 0) }
     fn c12_t_contains_len_mismatch_shorter [10] { contains!(4, 3, 9, 2, 0) }
     fn c12_t_contains_owned_15_3_0_3 [10] { contains!(15, 3, 0, 3, 1) }
